@@ -98,6 +98,10 @@ def b1_b2(repo, res, canon, pc, logic):
     for seg, end, p in segs:
         if any(e.kind == 'exit' and e.extra == 'raise' for e in seg) or (end == 'exit' and p.exit == 'raise'):
             continue
+        if end != 'back' and not any(_efs for _e, _efs in effects_along(canon, seg)):
+            # leaves the loop having changed nothing: this is the loop's exit test written as
+            # `while True: if not cond: break`, not an ingest step
+            continue
         dec = inc = Affine()
         ndec = ninc = 0
         first_ctl = None
